@@ -519,6 +519,20 @@ def post_init_contracts(mod, rel, Maker, FnContract, Raises):
                     c.note = f"{cname}.{f_} is rewritten to {d1[f_]!r}: not a str normalisation the rule follows"
                     return F
                 sub.append((d0[f_].t, d1[f_].t))
+            # the new values must be FUNCTIONS of the old fields: a result the executor only knows as a fresh constant (an unmodelled str
+            # method such as lstrip(chars)) would make the substitution below vacuous
+            olds = {d0[f_].t.get_id() for f_ in d0 if isinstance(d0[f_], VStr)}
+            for _old, new in sub:
+                todo, seen_ = [new], set()
+                while todo:
+                    e = todo.pop()
+                    if e.get_id() in seen_:
+                        continue
+                    seen_.add(e.get_id())
+                    if z3.is_app(e) and e.num_args() == 0 and e.decl().kind() == z3.Z3_OP_UNINTERPRETED and e.get_id() not in olds:
+                        c.note = f"{cname}: a new field value depends on `{e}`, the opaque result of a str method the rules do not model"
+                        return F
+                    todo.extend(e.children())
             for old, new in sub:
                 goals.append(z3.substitute(new, *sub) == new)
                 goals.append(STRIP(STRIP(new)) == STRIP(new))        # (instances at the new values, for compositions)
